@@ -72,7 +72,7 @@ def tokens(p: Path, base=SW) -> list:
                 out.append(("ORTH", e))
         elif e.kind == "setattr" and e.target[0] == SELF:
             if e.name == "_sweep_index":
-                out.append(("I", _off(e.value, base), e))
+                out.append(("I", _off(e.value, SW), e))
             elif e.name == "_swipe_direction":
                 v = strip_typed(e.value)
                 out.append(("D", v[1].split(".")[-1] if v[0] == "ref" else show(v), e))
@@ -248,7 +248,8 @@ def bath_pairing(ctx, cls_q: str, funcs: list[str], base=SW, inline_extra=()) ->
 
     def inline(callee, recv, depth):
         return recv == SELF and callee.name not in ("_evolve", "sweep_complete", "get_current_left_bath",
-                                                    "get_current_right_bath", "save_simulation", "timestep_complete")
+                                                    "get_current_right_bath", "save_simulation", "timestep_complete",
+                                                    "progress")
 
     for fname in funcs:
         f = prog.find_method(K, fname)
